@@ -1,6 +1,7 @@
 import PdeVerif.Model.Controller
 import PdeVerif.Lemmas.Basic
 import PdeVerif.Lemmas.Controller
+import Mathlib.Data.Rat.Floor
 /-
 C08 - trackers fire exactly once per scheduled time, in order, even when stopping.
 
@@ -1057,6 +1058,621 @@ theorem adaptive_two_trackers_served_early :
     R.exit = .final ∧ R.tFinal = 3 ∧
       R.trackers.map (fun tr => tr.times) =
         [[0, 97 / 100, 2, 3], [0, 97 / 100, 97 / 50, 291 / 100]] := by
+  decide +kernel
+
+/-! ### any schedule whose scheduled times are at least `dt` apart (fixed lists, geometric, logarithmic) -/
+
+/-- a schedule as a sequence of scheduled times `τ 0, τ 1, …` (`none`: exhausted, for ever) whose consecutive
+members are at least `dt` apart - the analogue of `D ≥ dt` -/
+structure Spaced (dt : K) (τ : Nat → Option K) : Prop where
+  gap : ∀ m a b, τ m = some a → τ (m + 1) = some b → a + dt ≤ b
+  done : ∀ m, τ m = none → τ (m + 1) = none
+
+/-- `nxt` acts on the schedule states `s` with `C s m` like an interrupt object whose pending time is the `m`-th
+scheduled time: asked at a time `t` not later than `dt/2` after it (the tracker has just been served), it answers the
+next scheduled time -/
+def SeqLike (nxt : σ → K → σ × Option K) (dt : K) (τ : Nat → Option K) (C : σ → Nat → Prop) : Prop :=
+  ∀ s m a t, C s m → τ m = some a → t ≤ a + dt / 2 → (nxt s t).2 = τ (m + 1) ∧ C (nxt s t).1 (m + 1)
+
+/-- the `k`-th call serves the `k`-th scheduled time, within half a step -/
+def NearSeq (dt : K) (τ : Nat → Option K) (k : Nat) (x : K) : Prop := ∃ a, τ k = some a ∧ |x - a| ≤ dt / 2
+
+structure SeqInv (c : Cfg K S σ) (τ : Nat → Option K) (C : σ → Nat → Prop) (j : Nat) (st : LState K S σ)
+    (m : Nat) : Prop where
+  tr : ∃ tr, st.trs[j]? = some tr ∧ C tr.sched m ∧ tr.due = τ m
+  window : ∀ a, τ m = some a → st.t - c.dt / 2 ≤ a
+  near : List.Forall₂ (NearSeq c.dt τ) (List.range m) (callsOf j st.trace)
+  before : ∀ k : Nat, k < m → ∀ a, τ k = some a → a ≤ st.t - c.dt / 2
+
+/-- one `handle` with tolerance `0 < atol ≤ dt/2` at a state satisfying the invariant -/
+theorem seq_window_invariant (c : Cfg K S σ) (hdt : 0 < c.dt) (τ : Nat → Option K) (hτ : Spaced c.dt τ)
+    (C : σ → Nat → Prop) (hC : SeqLike c.nxt c.dt τ C) (j : Nat) (st : LState K S σ) (m : Nat)
+    (h : SeqInv c τ C j st m) (atol : K) (ha0 : 0 < atol) (ha1 : atol ≤ c.dt / 2) :
+    ∃ m', (m' = m ∨ m' = m + 1) ∧
+      (∃ tr, (handleAll c.nxt atol st.t st.u 0 st.trs).1[j]? = some tr ∧ C tr.sched m' ∧ tr.due = τ m') ∧
+      (∀ a, τ m' = some a → st.t + atol ≤ a) ∧
+      List.Forall₂ (NearSeq c.dt τ) (List.range m')
+        (callsOf j (st.trace ++ (handleAll c.nxt atol st.t st.u 0 st.trs).2.1)) ∧
+      (∀ k : Nat, k < m' → ∀ a, τ k = some a → a < st.t + atol) := by
+  obtain ⟨tr, hj, hs, hdue⟩ := h.tr
+  have hget := handleAll_getElem? c.nxt atol st.t st.u st.trs 0 j tr hj
+  have hcalls := handleAll_callsOf c.nxt atol st.t st.u st.trs j tr hj
+  by_cases hd : isDue tr.due atol st.t = true
+  · -- due: served now
+    obtain ⟨a, ha⟩ : ∃ a, τ m = some a := by
+      cases hm : τ m with
+      | none => rw [hdue, hm] at hd; simp [isDue] at hd
+      | some a => exact ⟨a, rfl⟩
+    have hw := h.window a ha
+    have hd' : a - atol < st.t := by
+      rw [hdue, ha] at hd; simpa [isDue] using hd
+    obtain ⟨n1, n2⟩ := hC tr.sched m a st.t hs ha (by linarith)
+    refine ⟨m + 1, Or.inr rfl, ?_, ?_, ?_, ?_⟩
+    · exact ⟨served c.nxt st.t st.u tr, by rw [hget, if_pos hd], n2, n1⟩
+    · intro b hb
+      have := hτ.gap m a b ha hb
+      linarith
+    · rw [callsOf_append, hcalls, if_pos hd, List.range_succ]
+      refine List.rel_append h.near ?_
+      refine List.Forall₂.cons ⟨a, ha, ?_⟩ List.Forall₂.nil
+      rw [abs_le]; constructor <;> linarith
+    · intro k hk b hb
+      rcases Nat.lt_succ_iff_lt_or_eq.mp hk with h1 | h1
+      · have := h.before k h1 b hb; linarith
+      · subst h1; rw [ha] at hb; cases hb; linarith
+  · -- not due
+    refine ⟨m, Or.inl rfl, ⟨tr, by rw [hget, if_neg hd], hs, hdue⟩, ?_, ?_, ?_⟩
+    · intro a ha
+      have hd' : ¬ a - atol < st.t := by
+        rw [hdue, ha] at hd; simpa [isDue] using hd
+      linarith
+    · rw [callsOf_append, hcalls, if_neg hd, List.append_nil]; exact h.near
+    · intro k hk b hb
+      have := h.before k hk b hb; linarith
+
+theorem seqInv_advance (c : Cfg K S σ) (hdt : 0 < c.dt) (τ : Nat → Option K) (hτ : Spaced c.dt τ)
+    (C : σ → Nat → Prop) (hC : SeqLike c.nxt c.dt τ C) (j : Nat) (st : LState K S σ)
+    (h : ∃ m, SeqInv c τ C j st m) : ∃ m, SeqInv c τ C j (advance c st) m := by
+  obtain ⟨m, h⟩ := h
+  have hh : (half : K) * c.dt = c.dt / 2 := half_mul _
+  obtain ⟨m', _, ⟨tr', hj', hs', hdue'⟩, hp, hnear, hbef⟩ :=
+    seq_window_invariant c hdt τ hτ C hC j st m h (half * c.dt) (by rw [hh]; linarith) (by rw [hh])
+  rw [hh] at hp hbef
+  have hn1 := one_le_nsteps st.t (clip (nextAction (mainHandle c st).1) c.tEnd) c.dt
+  have ht : (advance c st).t = st.t + (nsteps st.t (clip (nextAction (mainHandle c st).1) c.tEnd) c.dt : K) * c.dt :=
+    stepperTime_eq _ _ _ hn1
+  have hge : st.t + c.dt ≤ (advance c st).t := by
+    rw [ht]
+    have : (1 : K) ≤ (nsteps st.t (clip (nextAction (mainHandle c st).1) c.tEnd) c.dt : K) := by
+      exact_mod_cast hn1
+    nlinarith
+  refine ⟨m', ⟨tr', hj', hs', hdue'⟩, ?_, hnear, ?_⟩
+  · intro a ha
+    have hmem : tr' ∈ (mainHandle c st).1 := List.mem_of_getElem? hj'
+    have hclip := clip_nextAction_le (mainHandle c st).1 c.tEnd tr' hmem a (by rw [hdue', ha])
+    have hwin := nsteps_window st.t (clip (nextAction (mainHandle c st).1) c.tEnd) c.dt a hdt hclip (hp a ha)
+    rw [ht]; linarith
+  · intro k hk a ha
+    have := hbef k hk a ha
+    linarith
+
+/-- **served_exactly_once_sequence.**  A tracker (list position `j`, any class, any stop behaviour, among any
+other trackers with any schedules) whose schedule offers the times `τ 0 < τ 1 < …`, consecutive ones at least `dt`
+apart, the first not more than `dt/2` before `t_start` (fixed lists, geometric and logarithmic schedules:
+`sched_fixed_seqLike`, `sched_geom_seqLike`, `sched_log_seqLike`): its `k`-th call serves its `k`-th scheduled
+time at distance at most `dt/2` - none is skipped, none is served twice, on every path.  If the run reaches the end
+of the loop, the scheduled times that were served are exactly those before `t_final + eps*dt`. -/
+theorem served_exactly_once_sequence (c : Cfg K S σ) (hdt : 0 < c.dt) (he0 : 0 < c.eps)
+    (he1 : c.eps ≤ 1 / 2) (τ : Nat → Option K) (hτ : Spaced c.dt τ) (C : σ → Nat → Prop)
+    (hC : SeqLike c.nxt c.dt τ C)
+    (u0 : S) (trs : List (Tracker K S σ)) (j : Nat) (tr0 : Tracker K S σ) (hj : trs[j]? = some tr0)
+    (hs : C tr0.sched 0) (hdue : tr0.due = τ 0) (h0 : ∀ a, τ 0 = some a → c.tStart - c.dt / 2 ≤ a)
+    (fuel : Nat) :
+    ∃ m : Nat,
+      List.Forall₂ (NearSeq c.dt τ) (List.range m) (callsOf j (runFuel c u0 trs fuel).trace) ∧
+      ((runFuel c u0 trs fuel).exit.reachedEnd →
+        ∀ k a, τ k = some a → (a < (runFuel c u0 trs fuel).tFinal + c.eps * c.dt ↔ k < m)) := by
+  have hi : ∃ m, SeqInv c τ C j (initState c u0 trs) m :=
+    ⟨0, ⟨tr0, hj, hs, hdue⟩, by simpa [initState] using h0,
+      by simp [initState, callsOf], by intro k hk; omega⟩
+  obtain ⟨st, ⟨m, hinv⟩, hT, _, _, sh⟩ := run_shape c (fun st => ∃ m, SeqInv c τ C j st m)
+    (fun st h _ _ => seqInv_advance c hdt τ hτ C hC j st h) u0 trs fuel hi
+  have hea : c.eps * c.dt ≤ c.dt / 2 := by nlinarith
+  have hea0 : 0 < c.eps * c.dt := mul_pos he0 hdt
+  -- the scheduled times increase with the index
+  have hmono : ∀ (d k : Nat) a b, τ k = some a → τ (k + d) = some b → a ≤ b := by
+    intro d
+    induction d with
+    | zero => intro k a b ha hb; rw [Nat.add_zero, ha] at hb; cases hb; exact le_refl _
+    | succ d ih =>
+      intro k a b ha hb
+      cases hm : τ (k + d) with
+      | none => have := hτ.done (k + d) hm; rw [show k + (d + 1) = k + d + 1 by omega, this] at hb; cases hb
+      | some x =>
+        have h1 := ih k a x ha hm
+        have h2 := hτ.gap (k + d) x b hm (by rw [← hb]; congr 1)
+        linarith
+  rcases sh with ⟨he, ht, _⟩ | ⟨hc, ht, _, he⟩ | ⟨hc, r, hr, he, ht, _⟩
+  · refine ⟨m, by rw [ht]; exact hinv.near, ?_⟩
+    intro hre; rw [he] at hre; exact absurd hre (by simp [Exit.reachedEnd])
+  · obtain ⟨m', _, _, hp, hnear, hbef⟩ :=
+      seq_window_invariant c hdt τ hτ C hC j st m hinv (c.eps * c.dt) hea0 hea
+    refine ⟨m', by rw [ht]; exact hnear, ?_⟩
+    intro _ k a ha
+    rw [hT]
+    constructor
+    · intro hk
+      by_contra hcon
+      have hmk : m' ≤ k := not_lt.mp hcon
+      cases hm : τ m' with
+      | none =>
+        -- exhausted at m' ≤ k: τ k = none
+        have : ∀ d, τ (m' + d) = none := by
+          intro d; induction d with
+          | zero => exact hm
+          | succ d ih => exact hτ.done _ ih
+        have := this (k - m'); rw [show m' + (k - m') = k by omega, ha] at this; cases this
+      | some b =>
+        have h1 := hp b hm
+        have h2 := hmono (k - m') m' b a hm (by rw [show m' + (k - m') = k by omega]; exact ha)
+        linarith
+    · intro hk; exact hbef k hk a ha
+  · have hh : (half : K) * c.dt = c.dt / 2 := half_mul _
+    obtain ⟨m', _, _, _, hnear, _⟩ :=
+      seq_window_invariant c hdt τ hτ C hC j st m hinv (half * c.dt) (by rw [hh]; linarith) (by rw [hh])
+    refine ⟨m', by rw [ht]; exact hnear, ?_⟩
+    intro hre; rw [he] at hre; exact absurd hre (by simp [Exit.reachedEnd])
+
+/-- a run that starts on a scheduled time: the first call is AT `t_start` (every call is a lattice time
+`t_start + n*dt` and the first one lies within `dt/2` of `τ 0 = t_start`); a run that reaches the end of its loop
+does make that call -/
+theorem first_call_at_t_start (c : Cfg K S σ) (hdt : 0 < c.dt) (he0 : 0 < c.eps)
+    (he1 : c.eps ≤ 1 / 2) (τ : Nat → Option K) (hτ : Spaced c.dt τ) (C : σ → Nat → Prop)
+    (hC : SeqLike c.nxt c.dt τ C)
+    (u0 : S) (trs : List (Tracker K S σ)) (j : Nat) (tr0 : Tracker K S σ) (hj : trs[j]? = some tr0)
+    (hs : C tr0.sched 0) (hdue : tr0.due = τ 0) (hstart : τ 0 = some c.tStart) (fuel : Nat) :
+    (∀ x, (callsOf j (runFuel c u0 trs fuel).trace).head? = some x → x = c.tStart) ∧
+    ((runFuel c u0 trs fuel).exit.reachedEnd →
+      ∃ rest, callsOf j (runFuel c u0 trs fuel).trace = c.tStart :: rest) := by
+  obtain ⟨m, hnear, hiff⟩ := served_exactly_once_sequence c hdt he0 he1 τ hτ C hC u0 trs j tr0 hj hs hdue
+    (by intro a ha; rw [hstart] at ha; cases ha; linarith) fuel
+  have hfirst : ∀ x, (callsOf j (runFuel c u0 trs fuel).trace).head? = some x → x = c.tStart := by
+    intro x hx
+    cases hcs : callsOf j (runFuel c u0 trs fuel).trace with
+    | nil => rw [hcs] at hx; cases hx
+    | cons y rest =>
+      rw [hcs] at hx hnear
+      simp only [List.head?_cons, Option.some.injEq] at hx
+      subst hx
+      cases m with
+      | zero => cases hnear
+      | succ m' =>
+        rw [List.range_succ_eq_map] at hnear
+        cases hnear with
+        | cons h1 _ =>
+          obtain ⟨a, ha, habs⟩ := h1
+          rw [hstart] at ha; cases ha
+          -- y is a time of the trace: a lattice time
+          have hmem : y ∈ callsOf j (runFuel c u0 trs fuel).trace := by rw [hcs]; exact List.mem_cons_self
+          unfold callsOf at hmem
+          obtain ⟨e, he, hey⟩ := List.mem_map.mp hmem
+          obtain ⟨n, _, hn⟩ := handle_times_on_lattice c u0 trs fuel e (List.mem_of_mem_filter he)
+          rw [← hey, hn]
+          rcases Nat.eq_zero_or_pos n with h0 | hpos
+          · subst h0; simp
+          · exfalso
+            rw [← hey, hn, abs_le] at habs
+            have : (1 : K) ≤ (n : K) := by exact_mod_cast hpos
+            nlinarith [habs.2]
+  refine ⟨hfirst, ?_⟩
+  intro hre
+  have hm : 0 < m := by
+    apply ((hiff hre) 0 c.tStart hstart).mp
+    rw [run_tFinal_lattice]
+    have : (0 : K) ≤ ((runFuel c u0 trs fuel).steps : K) * c.dt :=
+      mul_nonneg (Nat.cast_nonneg _) hdt.le
+    have : 0 < c.eps * c.dt := mul_pos he0 hdt
+    linarith
+  cases hcs : callsOf j (runFuel c u0 trs fuel).trace with
+  | nil =>
+    rw [hcs] at hnear
+    have := hnear.length_eq
+    simp at this; omega
+  | cons y rest =>
+    have := hfirst y (by rw [hcs]; rfl)
+    exact ⟨rest, by rw [this]⟩
+
+/-! #### fixed lists -/
+
+theorem fixedSkip_append_of_lt (t : K) (pre post : List K) (h : ∀ x ∈ pre, x < t) :
+    Interrupts.fixedSkip t (pre ++ post) =
+      ((Interrupts.fixedSkip t post).1 + pre.length, (Interrupts.fixedSkip t post).2) := by
+  induction pre with
+  | nil => simp
+  | cons x xs ih =>
+    have hx : x < t := h x List.mem_cons_self
+    have ih' := ih (fun y hy => h y (List.mem_cons_of_mem _ hy))
+    have e : Interrupts.fixedSkip t (x :: (xs ++ post)) =
+        ((Interrupts.fixedSkip t (xs ++ post)).1 + 1, (Interrupts.fixedSkip t (xs ++ post)).2) := by
+      conv_lhs => unfold Interrupts.fixedSkip
+      rw [if_pos hx]
+    show Interrupts.fixedSkip t (x :: (xs ++ post)) = _
+    rw [e, ih']
+    simp only [List.length_cons]
+    rfl
+
+/-- the first entry of a list that is not before `t` -/
+theorem fixedSkip_head (t : K) (post : List K) (h : ∀ a, post[0]? = some a → t ≤ a) :
+    Interrupts.fixedSkip t post = (1, post[0]?) := by
+  cases post with
+  | nil => rfl
+  | cons p ps =>
+    have : ¬ p < t := not_lt.mpr (h p rfl)
+    conv_lhs => unfold Interrupts.fixedSkip
+    rw [if_neg this]; rfl
+
+/-- `FixedInterrupts.initialize(t)` on `pre ++ post` (entries of `pre` before `t`, first entry of `post` not) -/
+theorem fixedNext_init (t : K) (pre post : List K) (hpre : ∀ x ∈ pre, x < t)
+    (hpost : ∀ a, post[0]? = some a → t ≤ a) :
+    Interrupts.fixedNext (pre ++ post) 0 t = (pre.length + 0 + 1, post[0]?) := by
+  unfold Interrupts.fixedNext
+  rw [if_neg (by omega), List.drop_zero, fixedSkip_append_of_lt t pre post hpre, fixedSkip_head t post hpost]
+  simp only [Nat.zero_add, Nat.add_zero]
+  congr 1; omega
+
+/-- `FixedInterrupts.next(t)` after `post[m]` has been served, the following entry not being before `t` -/
+theorem fixedNext_step (t : K) (pre post : List K) (m : Nat) (hm : m < post.length)
+    (hnext : ∀ b, post[m + 1]? = some b → t ≤ b) :
+    Interrupts.fixedNext (pre ++ post) (pre.length + m + 1) t = (pre.length + (m + 1) + 1, post[m + 1]?) := by
+  have hdrop : (pre ++ post).drop (pre.length + m + 1) = post.drop (m + 1) := by
+    rw [Nat.add_assoc]; exact List.drop_length_add_append (m + 1)
+  have hlen : ¬ pre.length + m + 1 > (pre ++ post).length := by
+    rw [List.length_append]; omega
+  unfold Interrupts.fixedNext
+  rw [if_neg hlen, hdrop, fixedSkip_head t (post.drop (m + 1))
+    (by intro a ha; rw [List.getElem?_drop] at ha; exact hnext a ha)]
+  rw [List.getElem?_drop]
+  simp only [Nat.add_zero]
+  congr 1
+
+theorem sched_next_fixed (l : List K) (idx : Nat) (t : K) :
+    Sched.next (Sched.fixed l idx) t =
+      (Sched.fixed l (Interrupts.fixedNext l idx t).1, (Interrupts.fixedNext l idx t).2) := rfl
+
+/-- `FixedInterrupts(pre ++ post)`: the scheduled times of the run are the entries of `post` -/
+theorem sched_fixed_seqLike (dt : K) (hdt : 0 < dt) (pre post : List K)
+    (hgap : ∀ m a b, post[m]? = some a → post[m + 1]? = some b → a + dt ≤ b) :
+    Spaced dt (fun m => post[m]?) ∧
+    SeqLike (Sched.next (K := K)) dt (fun m => post[m]?)
+      (fun s m => s = Sched.fixed (pre ++ post) (pre.length + m + 1)) := by
+  refine ⟨⟨hgap, ?_⟩, ?_⟩
+  · intro m hm
+    rw [List.getElem?_eq_none_iff] at hm ⊢; omega
+  · intro s m a t hs ha ht
+    subst hs
+    have hm : m < post.length := by
+      by_contra hcon
+      have : post[m]? = none := List.getElem?_eq_none_iff.mpr (not_lt.mp hcon)
+      simp only [this] at ha; cases ha
+    have hstep := fixedNext_step t pre post m hm (by
+      intro b hb
+      have := hgap m a b ha hb
+      linarith)
+    rw [sched_next_fixed, hstep]
+    exact ⟨rfl, rfl⟩
+
+/-- **fixed_list_served_exactly_once** (the statement for `FixedInterrupts`): a tracker with the list
+`pre ++ post` - `pre`: entries before the start of the run, `post`: entries from `t_start` on, consecutive ones at
+least `dt` apart - among any other trackers: its `k`-th call serves `post[k]` within `dt/2`; when the run reaches the
+end of its loop exactly the entries before `t_final + eps*dt` have been served; an entry equal to `t_start` is served
+AT `t_start`. -/
+theorem fixed_list_served_exactly_once (dt tStart tEnd eps : K) (step : S → K → S) (u0 : S)
+    (specs : List (TrackerSpec K S)) (hdt : 0 < dt) (he0 : 0 < eps) (he1 : eps ≤ 1 / 2)
+    (pre post : List K) (hpre : ∀ x ∈ pre, x < tStart) (hpost : ∀ a, post[0]? = some a → tStart ≤ a)
+    (hgap : ∀ m a b, post[m]? = some a → post[m + 1]? = some b → a + dt ≤ b)
+    (j : Nat) (sp : TrackerSpec K S) (hj : specs[j]? = some sp) (hsched : sp.sched = .fixed (pre ++ post)) :
+    (∃ m : Nat,
+      List.Forall₂ (NearSeq dt (fun m => post[m]?)) (List.range m)
+        (callsOf j (runSpec dt tStart tEnd eps step u0 specs).trace) ∧
+      ((runSpec dt tStart tEnd eps step u0 specs).exit.reachedEnd →
+        ∀ k a, post[k]? = some a →
+          (a < (runSpec dt tStart tEnd eps step u0 specs).tFinal + eps * dt ↔ k < m))) ∧
+    (post[0]? = some tStart →
+      (∀ x, (callsOf j (runSpec dt tStart tEnd eps step u0 specs).trace).head? = some x → x = tStart) ∧
+      ((runSpec dt tStart tEnd eps step u0 specs).exit.reachedEnd →
+        ∃ rest, callsOf j (runSpec dt tStart tEnd eps step u0 specs).trace = tStart :: rest)) := by
+  set c : Cfg K S (Sched K) :=
+    { dt := dt, tStart := tStart, tEnd := tEnd, eps := eps, step := step, nxt := Sched.next } with hc
+  have hj' : (specs.map (fun s => s.init tStart))[j]? = some (sp.init tStart) := by
+    rw [List.getElem?_map, hj]; rfl
+  obtain ⟨hsp, hlike⟩ := sched_fixed_seqLike dt hdt pre post hgap
+  -- `initialize(t_start)` skips `pre` and answers the first entry of `post`
+  have hinit : (sp.init tStart).sched = Sched.fixed (pre ++ post) (pre.length + 0 + 1) ∧
+      (sp.init tStart).due = post[0]? := by
+    have e : sp.init tStart =
+        { kind := sp.kind, sched := ((SchedSpec.fixed (pre ++ post)).init tStart).1,
+          due := ((SchedSpec.fixed (pre ++ post)).init tStart).2, stopAt := sp.stopAt, calls := 0, times := [],
+          frames := [], finalized := 0 } := by
+      unfold TrackerSpec.init; rw [hsched]
+    have e2 : (SchedSpec.fixed (pre ++ post)).init tStart =
+        (Sched.fixed (pre ++ post) (pre.length + 0 + 1), post[0]?) := by
+      show Sched.next (Sched.fixed (pre ++ post) 0) tStart = _
+      rw [sched_next_fixed, fixedNext_init tStart pre post hpre hpost]
+    rw [e, e2]
+    exact ⟨rfl, rfl⟩
+  refine ⟨?_, ?_⟩
+  · exact served_exactly_once_sequence c hdt he0 he1 _ hsp _ hlike u0
+      (specs.map (fun s => s.init tStart)) j (sp.init tStart) hj' hinit.1 hinit.2
+      (by intro a ha; have := hpost a ha; show tStart - dt / 2 ≤ a; linarith) (defaultFuel c)
+  · intro h0
+    have key := first_call_at_t_start c hdt he0 he1 (fun m => post[m]?) hsp
+      (fun s m => s = Sched.fixed (pre ++ post) (pre.length + m + 1)) hlike u0
+      (specs.map (fun s => s.init tStart)) j (sp.init tStart) hj' hinit.1 hinit.2 h0 (defaultFuel c)
+    exact key
+
+/-! #### logarithmic schedules -/
+
+/-- state `(dt, _t_next)` of `LogarithmicInterrupts(d0, f)` after `initialize` (first scheduled time `τ0`) and `m`
+calls of `next`: the scheduled times `τ0, τ0 + d0, τ0 + d0 + d0*f, …` -/
+def logSeq (f d0 τ0 : K) : Nat → K × K
+  | 0 => (d0 / f, τ0)
+  | m + 1 => ((logSeq f d0 τ0 m).1 * f, (logSeq f d0 τ0 m).2 + (logSeq f d0 τ0 m).1 * f)
+
+theorem logSeq_gap (f d0 τ0 dt : K) (hf : 1 ≤ f) (hdt : 0 < dt) (hd : dt ≤ d0) (m : Nat) :
+    dt ≤ (logSeq f d0 τ0 m).1 * f := by
+  have hf0 : f ≠ 0 := by intro h; rw [h] at hf; linarith
+  induction m with
+  | zero => show dt ≤ d0 / f * f; rw [div_mul_cancel₀ _ hf0]; exact hd
+  | succ m ih =>
+    show dt ≤ (logSeq f d0 τ0 m).1 * f * f
+    have : 0 ≤ (logSeq f d0 τ0 m).1 * f := le_trans hdt.le ih
+    nlinarith
+
+theorem sched_next_log (f d tn t : K) :
+    Sched.next (Sched.log f d tn) t =
+      (Sched.log f (d * f) (Interrupts.constNext tn (d * f) t), some (Interrupts.constNext tn (d * f) t)) := rfl
+
+/-- `LogarithmicInterrupts(d0, f)` with `d0 ≥ dt`, `f ≥ 1`: every gap is at least `dt`, no catch-up -/
+theorem sched_log_seqLike (dt f d0 τ0 : K) (hf : 1 ≤ f) (hdt : 0 < dt) (hd : dt ≤ d0) :
+    Spaced dt (fun m => some (logSeq f d0 τ0 m).2) ∧
+    SeqLike (Sched.next (K := K)) dt (fun m => some (logSeq f d0 τ0 m).2)
+      (fun s m => s = Sched.log f (logSeq f d0 τ0 m).1 (logSeq f d0 τ0 m).2) := by
+  refine ⟨⟨?_, ?_⟩, ?_⟩
+  · intro m a b ha hb
+    cases ha; cases hb
+    show (logSeq f d0 τ0 m).2 + dt ≤ (logSeq f d0 τ0 m).2 + (logSeq f d0 τ0 m).1 * f
+    have := logSeq_gap f d0 τ0 dt hf hdt hd m
+    linarith
+  · intro m hm; cases hm
+  · intro s m a t hs ha ht
+    subst hs; cases ha
+    have hg := logSeq_gap f d0 τ0 dt hf hdt hd m
+    rw [sched_next_log, constNext_no_catchup' _ _ _ (by linarith)]
+    exact ⟨rfl, rfl⟩
+
+/-- **logarithmic_served_exactly_once** (the statement for `LogarithmicInterrupts(d0, f, t_start=ts)`, `d0 ≥ dt`,
+`f ≥ 1`): the `k`-th call serves the `k`-th scheduled time `τ0 + d0 + d0*f + … + d0*f^(k-1)`,
+`τ0 = max(t_start, ts)`, within `dt/2`; without own start time the first call is AT `t_start`. -/
+theorem logarithmic_served_exactly_once (dt tStart tEnd eps : K) (step : S → K → S) (u0 : S)
+    (specs : List (TrackerSpec K S)) (hdt : 0 < dt) (he0 : 0 < eps) (he1 : eps ≤ 1 / 2)
+    (d0 f : K) (hf : 1 ≤ f) (hd : dt ≤ d0) (ts : Option K)
+    (j : Nat) (sp : TrackerSpec K S) (hj : specs[j]? = some sp) (hsched : sp.sched = .log d0 f ts) :
+    (∃ m : Nat,
+      List.Forall₂ (NearSeq dt (fun m => some (logSeq f d0 (Interrupts.constInit ts tStart) m).2)) (List.range m)
+        (callsOf j (runSpec dt tStart tEnd eps step u0 specs).trace) ∧
+      ((runSpec dt tStart tEnd eps step u0 specs).exit.reachedEnd →
+        ∀ k : Nat, ((logSeq f d0 (Interrupts.constInit ts tStart) k).2 <
+          (runSpec dt tStart tEnd eps step u0 specs).tFinal + eps * dt ↔ k < m))) ∧
+    (Interrupts.constInit ts tStart = tStart →
+      (∀ x, (callsOf j (runSpec dt tStart tEnd eps step u0 specs).trace).head? = some x → x = tStart) ∧
+      ((runSpec dt tStart tEnd eps step u0 specs).exit.reachedEnd →
+        ∃ rest, callsOf j (runSpec dt tStart tEnd eps step u0 specs).trace = tStart :: rest)) := by
+  set c : Cfg K S (Sched K) :=
+    { dt := dt, tStart := tStart, tEnd := tEnd, eps := eps, step := step, nxt := Sched.next } with hc
+  set τ0 := Interrupts.constInit ts tStart with hτ0
+  have hj' : (specs.map (fun s => s.init tStart))[j]? = some (sp.init tStart) := by
+    rw [List.getElem?_map, hj]; rfl
+  obtain ⟨hsp, hlike⟩ := sched_log_seqLike dt f d0 τ0 hf hdt hd
+  have hinit : (sp.init tStart).sched = Sched.log f (logSeq f d0 τ0 0).1 (logSeq f d0 τ0 0).2 ∧
+      (sp.init tStart).due = some (logSeq f d0 τ0 0).2 := by
+    unfold TrackerSpec.init
+    rw [hsched]
+    exact ⟨rfl, rfl⟩
+  have hge := constInit_ge' ts tStart
+  refine ⟨?_, ?_⟩
+  · obtain ⟨m, h1, h2⟩ := served_exactly_once_sequence c hdt he0 he1 (fun m => some (logSeq f d0 τ0 m).2) hsp
+      (fun s m => s = Sched.log f (logSeq f d0 τ0 m).1 (logSeq f d0 τ0 m).2) hlike u0
+      (specs.map (fun s => s.init tStart)) j (sp.init tStart) hj' hinit.1 hinit.2
+      (by intro a ha; cases ha; show tStart - dt / 2 ≤ τ0; linarith) (defaultFuel c)
+    exact ⟨m, h1, fun hre k => h2 hre k _ rfl⟩
+  · intro h0
+    have key := first_call_at_t_start c hdt he0 he1 (fun m => some (logSeq f d0 τ0 m).2) hsp
+      (fun s m => s = Sched.log f (logSeq f d0 τ0 m).1 (logSeq f d0 τ0 m).2) hlike u0
+      (specs.map (fun s => s.init tStart)) j (sp.init tStart) hj' hinit.1 hinit.2
+      (by show some τ0 = some tStart; rw [h0]) (defaultFuel c)
+    exact key
+
+/-! #### geometric schedules -/
+
+theorem geomSearch_hit (f t : K) : ∀ (i fuel : Nat) (cand : K) (n : Nat), i < fuel →
+    (∀ i' : Nat, i' < i → cand * f ^ i' < t) → t ≤ cand * f ^ i →
+    Interrupts.geomSearch f t fuel cand n = some (cand * f ^ i, n + i) := by
+  intro i
+  induction i with
+  | zero =>
+    intro fuel cand n hfu _ hle
+    obtain ⟨fu, rfl⟩ : ∃ fu, fuel = fu + 1 := ⟨fuel - 1, by omega⟩
+    unfold Interrupts.geomSearch
+    rw [if_pos (by simpa using hle)]
+    simp
+  | succ i ih =>
+    intro fuel cand n hfu hlt hle
+    obtain ⟨fu, rfl⟩ : ∃ fu, fuel = fu + 1 := ⟨fuel - 1, by omega⟩
+    unfold Interrupts.geomSearch
+    have h0 : ¬ t ≤ cand := by
+      have := hlt 0 (by omega); simp at this; exact not_le.mpr this
+    rw [if_neg h0, ih fu (cand * f) (n + 1) (by omega)
+      (by intro i' hi'; have := hlt (i' + 1) (by omega); rw [pow_succ'] at this; rw [mul_assoc]; exact this)
+      (by rw [mul_assoc, ← pow_succ']; exact hle)]
+    rw [mul_assoc, ← pow_succ']
+    congr 2; omega
+
+theorem sched_next_geom (scale f : K) (fuel : Nat) (v : K) (k : Nat) (t : K) (r : K × Nat)
+    (h : Interrupts.geomSearch f t fuel (v * f) (k + 1) = some r) :
+    Sched.next (Sched.geom scale f fuel (some (v, k))) t = (Sched.geom scale f fuel (some r), some r.1) := by
+  show (match Interrupts.geomNext scale f (some (v, k)) t fuel with
+    | none => ((Sched.broken : Sched K), (none : Option K))
+    | some r => (Sched.geom scale f fuel (some r), some r.1)) = _
+  have : Interrupts.geomNext scale f (some (v, k)) t fuel = some r := h
+  rw [this]
+
+/-- `GeometricInterrupts(scale, f)` from its member `g0 = scale*f^k0` on, where the gaps have reached `dt`
+(`g0*(f-1) ≥ dt`; they grow from there): the scheduled times are `g0*f^m` -/
+theorem sched_geom_seqLike (dt scale f g0 : K) (k0 fuel : Nat) (hfuel : 0 < fuel) (hf : 1 ≤ f) (hdt : 0 < dt)
+    (hg0 : 0 ≤ g0) (hgap : dt ≤ g0 * (f - 1)) :
+    Spaced dt (fun m => some (g0 * f ^ m)) ∧
+    SeqLike (Sched.next (K := K)) dt (fun m => some (g0 * f ^ m))
+      (fun s m => s = Sched.geom scale f fuel (some (g0 * f ^ m, k0 + m))) := by
+  have hstep : ∀ m : Nat, g0 * f ^ m + dt ≤ g0 * f ^ (m + 1) := by
+    intro m
+    have h1 : (1 : K) ≤ f ^ m := one_le_pow₀ hf
+    have h2 : 0 ≤ g0 * (f - 1) := le_trans hdt.le hgap
+    have : g0 * (f - 1) ≤ g0 * (f - 1) * f ^ m := by nlinarith
+    rw [pow_succ]; nlinarith
+  refine ⟨⟨?_, ?_⟩, ?_⟩
+  · intro m a b ha hb
+    cases ha; cases hb; exact hstep m
+  · intro m hm; cases hm
+  · intro s m a t hs ha ht
+    subst hs; cases ha
+    have hle : t ≤ g0 * f ^ m * f ^ 0 * f := by
+      have := hstep m; rw [pow_succ] at this; simp only [pow_zero, mul_one]; linarith
+    have hsearch := geomSearch_hit f t 0 fuel (g0 * f ^ m * f) (k0 + m + 1) hfuel (by intro i' hi'; omega)
+      (by simpa using hle)
+    rw [sched_next_geom scale f fuel _ _ t _ hsearch]
+    simp only [pow_zero, mul_one, Nat.add_zero]
+    rw [pow_succ, ← mul_assoc]
+    exact ⟨rfl, rfl⟩
+
+/-- **geometric_served_exactly_once** (the statement for `GeometricInterrupts(scale, f)`, also given as the string
+`'geometric(scale, f)'`): let `scale*f^k0` be the first member of the sequence that is not before `t_start`, and let
+the gaps have reached the step there (`scale*f^k0*(f-1) ≥ dt`).  Then the `k`-th call of the tracker serves
+`scale*f^(k0+k)` within `dt/2`, every member before `t_final + eps*dt` is served when the run reaches the end of its
+loop, and a run that starts ON the sequence (`t_start = scale*f^k0`, `k0 = 0` included) makes its first call AT
+`t_start`. -/
+theorem geometric_served_exactly_once (dt tStart tEnd eps : K) (step : S → K → S) (u0 : S)
+    (specs : List (TrackerSpec K S)) (hdt : 0 < dt) (he0 : 0 < eps) (he1 : eps ≤ 1 / 2)
+    (scale f : K) (fuel k0 : Nat) (hfuel : k0 < fuel) (hf : 1 ≤ f) (hscale : 0 ≤ scale)
+    (hbefore : ∀ i : Nat, i < k0 → scale * f ^ i < tStart) (hfirst : tStart ≤ scale * f ^ k0)
+    (hgap : dt ≤ scale * f ^ k0 * (f - 1))
+    (j : Nat) (sp : TrackerSpec K S) (hj : specs[j]? = some sp) (hsched : sp.sched = .geom scale f fuel) :
+    (∃ m : Nat,
+      List.Forall₂ (NearSeq dt (fun m => some (scale * f ^ k0 * f ^ m))) (List.range m)
+        (callsOf j (runSpec dt tStart tEnd eps step u0 specs).trace) ∧
+      ((runSpec dt tStart tEnd eps step u0 specs).exit.reachedEnd →
+        ∀ k : Nat, (scale * f ^ k0 * f ^ k <
+          (runSpec dt tStart tEnd eps step u0 specs).tFinal + eps * dt ↔ k < m))) ∧
+    (scale * f ^ k0 = tStart →
+      (∀ x, (callsOf j (runSpec dt tStart tEnd eps step u0 specs).trace).head? = some x → x = tStart) ∧
+      ((runSpec dt tStart tEnd eps step u0 specs).exit.reachedEnd →
+        ∃ rest, callsOf j (runSpec dt tStart tEnd eps step u0 specs).trace = tStart :: rest)) := by
+  set c : Cfg K S (Sched K) :=
+    { dt := dt, tStart := tStart, tEnd := tEnd, eps := eps, step := step, nxt := Sched.next } with hc
+  set g0 := scale * f ^ k0 with hg0
+  have hj' : (specs.map (fun s => s.init tStart))[j]? = some (sp.init tStart) := by
+    rw [List.getElem?_map, hj]; rfl
+  have hg0n : 0 ≤ g0 := mul_nonneg hscale (pow_nonneg (le_trans zero_le_one hf) _)
+  obtain ⟨hsp, hlike⟩ := sched_geom_seqLike dt scale f g0 k0 fuel (by omega) hf hdt hg0n hgap
+  have hsearch := geomSearch_hit f tStart k0 fuel scale 0 hfuel hbefore hfirst
+  have hinit : (sp.init tStart).sched = Sched.geom scale f fuel (some (g0 * f ^ 0, k0 + 0)) ∧
+      (sp.init tStart).due = some (g0 * f ^ 0) := by
+    have e : sp.init tStart =
+        { kind := sp.kind, sched := ((SchedSpec.geom scale f fuel).init tStart).1,
+          due := ((SchedSpec.geom scale f fuel).init tStart).2, stopAt := sp.stopAt, calls := 0, times := [],
+          frames := [], finalized := 0 } := by
+      unfold TrackerSpec.init; rw [hsched]
+    have e2 : (SchedSpec.geom scale f fuel).init tStart =
+        (Sched.geom scale f fuel (some (g0 * f ^ 0, k0 + 0)), some (g0 * f ^ 0)) := by
+      show (match Interrupts.geomNext scale f none tStart fuel with
+        | none => ((Sched.broken : Sched K), (none : Option K))
+        | some r => (Sched.geom scale f fuel (some r), some r.1)) = _
+      have : Interrupts.geomNext scale f none tStart fuel = some (scale * f ^ k0, 0 + k0) := hsearch
+      rw [this]
+      simp only [pow_zero, mul_one, Nat.add_zero, Nat.zero_add, hg0]
+    rw [e, e2]
+    exact ⟨rfl, rfl⟩
+  refine ⟨?_, ?_⟩
+  · obtain ⟨m, h1, h2⟩ := served_exactly_once_sequence c hdt he0 he1 (fun m => some (g0 * f ^ m)) hsp
+      (fun s m => s = Sched.geom scale f fuel (some (g0 * f ^ m, k0 + m))) hlike u0
+      (specs.map (fun s => s.init tStart)) j (sp.init tStart) hj' hinit.1 hinit.2
+      (by intro a ha; cases ha; show tStart - dt / 2 ≤ g0 * f ^ 0; simp only [pow_zero, mul_one]; linarith)
+      (defaultFuel c)
+    exact ⟨m, h1, fun hre k => h2 hre k _ rfl⟩
+  · intro h0
+    have key := first_call_at_t_start c hdt he0 he1 (fun m => some (g0 * f ^ m)) hsp
+      (fun s m => s = Sched.geom scale f fuel (some (g0 * f ^ m, k0 + m))) hlike u0
+      (specs.map (fun s => s.init tStart)) j (sp.init tStart) hj' hinit.1 hinit.2
+      (by show some (g0 * f ^ 0) = some tStart; rw [pow_zero, mul_one, h0]) (defaultFuel c)
+    exact key
+
+theorem reachedEnd_of_final (e : Exit) (h : e = .final) : e.reachedEnd := by rw [h]; trivial
+
+/-! #### non-vacuity: runs that start exactly on a scheduled time (concrete runs at `Rat`) -/
+
+/-- `'geometric(1, 2)'` on `t_range = (1, 20)`, dt = 1/2: frames at 1, 2, 4, 8, 16 - the first one at `t_start` -/
+example : (runSpec (1 / 2 : Rat) 1 20 (1 / 1000000) (fun u _ => u + 1 / 2) (0 : Rat)
+    [ { kind := .storage, sched := .geom 1 2 50, stopAt := fun _ _ _ => none } ]).trackers.map
+      (fun tr => tr.times) = [[1, 2, 4, 8, 16]] := by decide +kernel
+
+/-- `t_range = (4, 40)`: 4, 8, 16, 32 (start on the member with exponent 2) -/
+example : (runSpec (1 / 2 : Rat) 4 40 (1 / 1000000) (fun u _ => u + 1 / 2) (0 : Rat)
+    [ { kind := .storage, sched := .geom 1 2 50, stopAt := fun _ _ _ => none } ]).trackers.map
+      (fun tr => tr.times) = [[4, 8, 16, 32]] := by decide +kernel
+
+/-- a fixed list with entries before the start, the start itself, and entries `≥ dt` apart; a logarithmic schedule
+whose own start time is the start of the run -/
+example : (runSpec (1 / 4 : Rat) 2 9 (1 / 1000000) (fun u _ => u + 1 / 4) (0 : Rat)
+    [ { kind := .storage, sched := .fixed [1, 2, 3, 11 / 2, 9], stopAt := fun _ _ _ => none },
+      { kind := .data, sched := .log (1 / 2) 2 (some 2), stopAt := fun _ _ _ => none } ]).trackers.map
+      (fun tr => tr.times) = [[2, 3, 11 / 2, 9], [2, 5 / 2, 7 / 2, 11 / 2]] := by decide +kernel
+
+/-- the hypotheses of `geometric_served_exactly_once` are satisfiable (dt = 1/2, `geometric(1, 2)`, run from the
+member with exponent `k0 = 2`): the theorem gives the first call AT `t_start = 4` -/
+example : ∃ rest, callsOf 0 (runSpec (1 / 2 : Rat) 4 40 (1 / 1000000) (fun u _ => u + 1 / 2) (0 : Rat)
+    [ { kind := .storage, sched := .geom 1 2 50, stopAt := fun _ _ _ => none } ]).trace = 4 :: rest := by
+  have h := geometric_served_exactly_once (K := Rat) (S := Rat) (1 / 2) 4 40 (1 / 1000000)
+    (fun u _ => u + 1 / 2) 0
+    [ { kind := .storage, sched := .geom 1 2 50, stopAt := fun _ _ _ => none } ] (by norm_num) (by norm_num)
+    (by norm_num) 1 2 50 2 (by norm_num) (by norm_num) (by norm_num)
+    (by intro i hi; match i, hi with
+      | 0, _ => norm_num
+      | 1, _ => norm_num
+      | (n + 2), h => omega) (by norm_num) (by norm_num) 0 _ rfl rfl
+  refine (h.2 (by norm_num)).2 ?_
+  apply reachedEnd_of_final
+  decide +kernel
+
+/-- the hypotheses of `fixed_list_served_exactly_once` are satisfiable -/
+example : ∃ rest, callsOf 0 (runSpec (1 / 4 : Rat) 2 9 (1 / 1000000) (fun u _ => u + 1 / 4) (0 : Rat)
+    [ { kind := .storage, sched := .fixed ([1] ++ [2, 3, 11 / 2, 9]), stopAt := fun _ _ _ => none } ]).trace =
+      2 :: rest := by
+  have h := fixed_list_served_exactly_once (K := Rat) (S := Rat) (1 / 4) 2 9 (1 / 1000000)
+    (fun u _ => u + 1 / 4) 0
+    [ { kind := .storage, sched := .fixed ([1] ++ [2, 3, 11 / 2, 9]), stopAt := fun _ _ _ => none } ]
+    (by norm_num) (by norm_num) (by norm_num) [1] [2, 3, 11 / 2, 9]
+    (by intro x hx; simp at hx; subst hx; norm_num)
+    (by intro a ha; simp at ha; subst ha; norm_num)
+    (by
+      intro m a b ha hb
+      match m, ha, hb with
+      | 0, ha, hb => simp at ha hb; subst ha; subst hb; norm_num
+      | 1, ha, hb => simp at ha hb; subst ha; subst hb; norm_num
+      | 2, ha, hb => simp at ha hb; subst ha; subst hb; norm_num
+      | 3, ha, hb => simp at hb
+      | (n + 4), ha, hb => simp at ha)
+    0 _ rfl rfl
+  refine (h.2 (by simp)).2 ?_
+  apply reachedEnd_of_final
   decide +kernel
 
 end
